@@ -7,6 +7,13 @@ pub mod pytext;
 pub mod dbsnap;
 pub mod checks;
 pub mod scen_race;
+pub mod ws;
+pub mod model;
+pub mod scen_resolve;
+pub mod observe;
+pub mod scen_order;
+pub mod scen_static;
+pub mod scen_history;
 
 include!(concat!(env!("OUT_DIR"), "/overlay_info.rs"));
 
